@@ -317,8 +317,15 @@ impl PendingLock {
     pub fn lock(&self) -> PendingGuard { unimplemented!() }
 }
 
+#[verifier::external_body]
+pub struct FlushLock { _p: () }
+impl FlushLock {
+    #[verifier::external_body]
+    pub fn lock(&self) -> () { unimplemented!() }
+}
 pub struct RetirementQueue {
     pub pending: PendingLock,
+    pub flush: FlushLock,
     pub released_sectors: AtomicU64,
 }
 
@@ -337,7 +344,14 @@ impl ShardBuffer {
     pub fn requeue_entries(&self, entries: Vec<WriteEntry>, stats: &Statistics, failed: bool) { unimplemented!() }
 }
 
+#[verifier::external_body]
+pub struct ShutdownFlag { _p: () }
+impl ShutdownFlag {
+    #[verifier::external_body]
+    pub fn load(&self, o: Ordering) -> bool { unimplemented!() }
+}
 pub struct WorkerContext {
+    pub shutdown: ShutdownFlag,
     pub worker_id: usize,
     pub worker_count: usize,
     pub sharded_buffers: Vec<ShardBuffer>,
